@@ -70,7 +70,13 @@ def make_reads(n_alleles, read_set, seed):
         reads[0, 0, :] = np.nan
         if nb >= 3:
             reads[2, 1, :] = np.nan  # a gap *inside* a read (observed - missing - observed), as a read pair leaves it
-        counts = np.array([1, 2, 1, 3])
+        # an informative read with count 0 (a row that de-duplication or pooling left without observations): it must weigh nothing
+        extra = np.zeros((1, nb, ma))
+        for j, a in enumerate(n_alleles):
+            extra[0, j, :a] = 0.05 / max(a - 1, 1) if a > 1 else 1.0
+            extra[0, j, a - 1] = 0.95 if a > 1 else 1.0
+        reads = np.concatenate([reads, extra])
+        counts = np.array([1, 2, 1, 3, 0])
     else:
         nr = 5
         reads = np.zeros((nr, nb, ma))
